@@ -423,6 +423,7 @@ def gen_spec(rng, profile=None):
     pad_a = rng.choice([0, 0, 1, 30, 400])
     pad_b = rng.choice([0, 0, 1, 30, 400])
     ext = _p(profile, "weather_extra_after", 0)
+    pad_a += _p(profile, "weather_extra_before", 0)
     w = W.make_weather(rng, start - _dt.timedelta(days=pad_a), end + _dt.timedelta(days=pad_b + ext),
                        archetype=arche if rng.random() >= _p(profile, "station_p", 0.2) else None,
                        station_p=1.0)
